@@ -400,8 +400,7 @@ FAULTS = [
     ("AC cross/bloc split swapped", [(BG, "                if i < num_cross_ballots:\n                    # alternate", "                if i < num_bloc_ballots:\n                    # alternate")], "C16.D4"),
 ]
 FAULTS += [
-    ("combined interval uses other bloc's cohesion row", [(BG, "                    [self.cohesion_parameters[bloc][b] for b in self.blocs],\n                )\n                for bloc in self.blocs\n            }\n\n    def generate_profile(\n        self, number_of_ballots: int, by_bloc: bool = False\n    ) -> Union[PreferenceProfile, Tuple]:\n        \"\"\"\n        Args:\n            number_of_ballots (int): The number of ballots to generate.\n            by_bloc (bool): True if you want the generated profiles returned as a tuple\n                ``(pp_by_bloc, pp)``, where ``pp_by_bloc`` is a dictionary with keys = bloc strings\n                and values = ``PreferenceProfile`` and ``pp`` is the aggregated profile. False if\n                you only want the aggregated profile. Defaults to False.\n\n        Returns:\n            Union[PreferenceProfile, Tuple]\n        \"\"\"\n        # the number of ballots per bloc is determined by Huntington-Hill apportionment\n        bloc_props",
-       "                    [self.cohesion_parameters[b][bloc] for b in self.blocs],\n                )\n                for bloc in self.blocs\n            }\n\n    def generate_profile(\n        self, number_of_ballots: int, by_bloc: bool = False\n    ) -> Union[PreferenceProfile, Tuple]:\n        \"\"\"\n        Args:\n            number_of_ballots (int): The number of ballots to generate.\n            by_bloc (bool): True if you want the generated profiles returned as a tuple\n                ``(pp_by_bloc, pp)``, where ``pp_by_bloc`` is a dictionary with keys = bloc strings\n                and values = ``PreferenceProfile`` and ``pp`` is the aggregated profile. False if\n                you only want the aggregated profile. Defaults to False.\n\n        Returns:\n            Union[PreferenceProfile, Tuple]\n        \"\"\"\n        # the number of ballots per bloc is determined by Huntington-Hill apportionment\n        bloc_props")], "C16.D6"),
+    ("combined interval uses other bloc's cohesion row", [(BG, "[self.cohesion_parameters[bloc][b] for b in self.blocs],", "[self.cohesion_parameters[b][bloc] for b in self.blocs],", "all")], "C16.D6"),
     ("impartial culture alpha 1", [(BG, "        super().__init__(alpha=float(\"inf\"), **data)", "        super().__init__(alpha=1.0, **data)")], "C16.D6"),
     ("dirichlet one short", [(BG, "np.random.default_rng().dirichlet([self.alpha] * len(perm_rankings))", "np.random.default_rng().dirichlet([self.alpha] * len(self.candidates))")], "C16.D"),
 ]
